@@ -754,8 +754,23 @@ def _drive_run_command(path: str, names: List[str], cmdkind: str, rec: Dict[str,
     else:
         raise core.HarnessError(f"unknown command kind {cmdkind!r}")
 
+    kind = rec.get("names_as") or "list"
+    if kind == "list":
+        given: Any = list(names)
+    elif kind == "tuple":
+        given = tuple(names)
+    elif kind == "generator":
+        given = (n for n in names)
+    elif kind == "map":
+        given = map(str, names)
+    elif kind == "dict-keys":
+        given = {n: None for n in names}.keys()
+    elif kind == "iterator":
+        given = iter(list(names))
+    else:
+        raise core.HarnessError(f"unknown names_as {kind!r}")
     try:
-        run_command(fn, path, list(names))
+        run_command(fn, path, given)
     except KeyboardInterrupt:
         rec["error"] = "KeyboardInterrupt"
     except Exception as e:  # noqa: BLE001
@@ -798,6 +813,8 @@ def case_text(cfg: Dict[str, Any]) -> str:
                 f"{SEQ_STATES[s2]!r}, then {e2} || first: {case_text(seq_phase(s1, e1))} || second: "
                 f"{case_text(seq_phase(s2, e2))}")
     parts = [f"entry={cfg['entry']}"]
+    if cfg.get("names_as") and cfg["names_as"] != "list":
+        parts.append(f"server names given as a {cfg['names_as']}")
     if cfg.get("logging") and cfg["logging"] != "default":
         parts.append(f"root logger at {cfg['logging']}")
     if cfg.get("cmdkind") and cfg["entry"] == "run_command":
@@ -1154,6 +1171,7 @@ def _run_case(cfg: Dict[str, Any], tmp: str, pids: List[int], root: Optional[str
                     elif entry == "test_server":
                         _drive_test_server(path, names[0], bool(cfg.get("verbose")), rec)
                     elif entry == "run_command":
+                        rec["names_as"] = cfg.get("names_as") or "list"
                         _drive_run_command(path, names, cfg.get("cmdkind") or "plain", rec)
                     else:
                         raise core.HarnessError(f"unknown entry {entry!r}")
@@ -1274,7 +1292,8 @@ def _run_case(cfg: Dict[str, Any], tmp: str, pids: List[int], root: Optional[str
                 st = loader_status(NAMES[req[-1] + off])
                 tw = twin_of(req[0]) if len(members) == 1 else "env-same"
                 for _ in range(len(req) - len(ls)):
-                    add({"class": "not-launched", "entry": entry, "loader": st, "twin": tw},
+                    add({"class": "not-launched", "entry": entry, "loader": st, "twin": tw,
+                         **({"names_as": cfg["names_as"]} if cfg.get("names_as") not in (None, "list") else {})},
                         f"requested server(s) {reqnames!r}: {len(ls)} launch(es) recorded, {len(req)} expected "
                         f"(loader alone: {st}; another requested server with the same command+args: {tw}; "
                         f"error={rec.get('error')}; printed={diag[:160]!r})")
@@ -1661,6 +1680,9 @@ def cli_configs(tier: str) -> Dict[str, List[Dict[str, Any]]]:
     for config in ("existing", "missing", "absent"):
         for d in ([], list(range(n))):
             g.append(case(config=config, defaults=d, flags="verbose"))
+    for server in ("given", "absent"):        # --verbose with a configured env (alpha) and with none (sqlite)
+        for form in CLI_FORMS:
+            g.append(case(config="existing", server=server, defaults=[], flags="verbose", form=form))
     for form in ("short", "equals"):
         for config in ("existing", "missing"):
             for d in ([], list(range(n))):
@@ -1679,6 +1701,7 @@ def cli_configs(tier: str) -> Dict[str, List[Dict[str, Any]]]:
     return {"command-line-main": g, "command-line-real-process": pr}
 
 
+NAMES_AS = ["list", "tuple", "generator", "map", "dict-keys", "iterator"]   # how run_command is given the server names
 CMD_KINDS = ["plain", "interactive_mode", "chat_run", "interactive_mode-without-server_info", "raises", "keyboard-interrupt"]
 
 
@@ -1792,6 +1815,11 @@ def configs_for(tier: str) -> Dict[str, Tuple[int, List[Dict[str, Any]]]]:
         for kind in CMD_KINDS[2:]:
             by_children.setdefault(len(req), []).append(
                 {"entry": "run_command", "servers": two, "request": req, "cmdkind": kind})
+    for names_as in NAMES_AS[1:]:
+        for req in ([0], [1], [0, 1], [1, 0]):
+            for kind in ("plain", "interactive_mode"):
+                by_children.setdefault(len(req), []).append(
+                    {"entry": "run_command", "servers": two, "request": req, "cmdkind": kind, "names_as": names_as})
     broken = [R_SHAPES[1], [0, 0, 0, 0, CANNOT_START, 0], R_SHAPES[2]]
     for req in ([1], [0, 1], [1, 0], [0, 1, 2], [1, 2, 0], [2, 0, 1]):
         for kind in (CMD_KINDS if thorough else ["plain", "interactive_mode", "raises"]):
@@ -1828,6 +1856,11 @@ def configs_for(tier: str) -> Dict[str, Tuple[int, List[Dict[str, Any]]]]:
         for a in (range(N_BASE_ARGS) if thorough else (0, 2, 5, 6)):   # >= 128 cases, so the pool (not the parent) runs them
             for e in STEER_ENVS:
                 g.append({"entry": entry, "servers": [[a, e, 0, 0]], "request": [0], **extra})
+    # verbose connectivity test: the server's environment is still exactly the configured one (or the default set)
+    for verbose in (False, True):
+        for a in (0, 2):
+            for e in [0, 1, 2, 3] + [STEER_ENVS[4], STEER_ENVS[5], STEER_ENVS[0]]:
+                g.append({"entry": "test_server", "servers": [[a, e, 0, 0]], "request": [0], "verbose": verbose})
     parts["env-steering-variables"] = (1, g)
 
     # (7) two calls on the same path in one process, the file changing in between: every ordered pair of file states
@@ -1953,6 +1986,7 @@ def run(tier: str, only=None) -> core.Result:
         "command_line": {"config": CLI_CONFIG, "server": CLI_SERVER, "flags": CLI_FLAGS, "option_forms": CLI_FORMS,
                          "default_locations_in_order": DEFAULT_LOCATIONS, "via": CLI_VIA},
         "run_command_command_functions": CMD_KINDS,
+        "run_command_server_names_given_as": NAMES_AS,
         "timeout": ["absent" if t is ABSENT else t for _, t in TIMEOUTS],
         "extra_keys": [n for n, _, _ in EXTRAS],
         "server_names_by_position": NAMES[:N_BASE_NAMES],
